@@ -56,6 +56,7 @@ type pend struct {
 	spinMark  uint64
 	spinSnap  map[*thread]uint64
 	what      string
+	parkEpoch uint64 // s.parkEpoch when the operation was published (see maybeParked)
 }
 
 type thread struct {
@@ -122,8 +123,11 @@ type sched struct {
 	now      time.Duration
 	timers   []*vtimer
 	timerSeq uint64
-	moves    uint64
-	progress uint64 // points reached by non-spinning operations
+	// parkEpoch advances whenever every thread pending so far is certainly parked for real:
+	// virtual time moved (everybody was blocked) or a Settle completed (quiescence).
+	parkEpoch uint64
+	moves     uint64
+	progress  uint64 // points reached by non-spinning operations
 
 	prefix  []int
 	trace   []choice
@@ -132,14 +136,15 @@ type sched struct {
 	doneCh  chan struct{}
 	ended   bool
 
-	autoAdvance bool
-	envCost     int8
-	run         *Run
-	closed      map[uintptr]bool
-	abortMsg    string
-	diverged    string
-	randHook    func() (int64, bool)
-	mapOrderOn  bool
+	autoAdvance   bool
+	noMaybeParked bool
+	envCost       int8
+	run           *Run
+	closed        map[uintptr]bool
+	abortMsg      string
+	diverged      string
+	randHook      func() (int64, bool)
+	mapOrderOn    bool
 
 	hbOn     bool
 	prune    bool
@@ -324,6 +329,7 @@ func (s *sched) point(t *thread, p *pend) {
 		}
 	}
 	p.committed = -1
+	p.parkEpoch = s.parkEpoch
 	if p.kind == opSpin {
 		// fair yield: remember how far every other thread has got
 		p.spinSnap = make(map[*thread]uint64, len(s.threads))
@@ -472,6 +478,7 @@ func (s *sched) choose(cur *thread) *thread {
 			}
 			if len(cands) > 0 {
 				// lowest id settles first; deterministic, no choice
+				s.parkEpoch++
 				return cands[0]
 			}
 			if s.autoAdvance && len(s.threads) > 0 && !s.threads[0].done {
